@@ -385,3 +385,99 @@ theorem makeClassesReady_spec (fuel : Nat) (h : Heap) (hn : NodupNames h) (hfuel
         simp [inhOf, hf, hi] at this
       · simpa using hr
     exact merge_none_of_tryReady_eq hf hi (foldl_fixed _ _ hfixed c hcnot)
+
+/-! ## classChanged -/
+
+/-- what the first loop of classChanged does to one class object -/
+def unreadyIf (cc : Name) (g : GClass) : GClass :=
+  if g.name != cc && Inherits g cc then (unready.body g).state else g
+
+theorem unreadyIf_name (cc : Name) (g : GClass) : (unreadyIf cc g).name = g.name := by
+  unfold unreadyIf
+  by_cases h : (g.name != cc && Inherits g cc) = true <;> simp [h, unready_eq]
+
+def unreadyStep (cc : Name) (s : classChanged.St) (c : Name) : classChanged.St :=
+  if c != cc && Inherits (s.heap.getD c) cc then
+    { s with heap := s.heap.put (unready.body (s.heap.getD c)).state, changed := true }
+  else s
+
+theorem getD_name (h : Heap) (c : Name) : (h.getD c).name = c := by
+  unfold Heap.getD
+  cases hg : h.get? c with
+  | none => rfl
+  | some g => exact Heap.get?_name hg
+
+theorem getD_map_of_ne {f : GClass → GClass} (hf : ∀ g, (f g).name = g.name) {x : Name}
+    (h : Heap) (c : Name) (hc : c ≠ x) :
+    Heap.getD (h.map (fun g => if g.name = x then f g else g)) c = Heap.getD h c := by
+  unfold Heap.getD
+  rw [get?_map_of_ne hf h c hc]
+
+/-- the first loop of classChanged, in closed form: every class other than `cc` that has `cc` on its
+    `inherit` list (by name) gets its precedence list emptied; `changed` is raised when there is one -/
+theorem unready_fold (cc : Name) : ∀ (xs : List Name) (s : classChanged.St), xs.Nodup → NodupNames s.heap →
+    (xs.foldl (unreadyStep cc) s).heap = s.heap.map (fun g => if g.name ∈ xs then unreadyIf cc g else g) ∧
+    ((xs.foldl (unreadyStep cc) s).changed = false →
+      s.changed = false ∧ ∀ c ∈ xs, (c != cc && Inherits (s.heap.getD c) cc) = false)
+  | [], s, _, _ => by simp
+  | x :: xs, s, hnd, hn => by
+    have hx : x ∉ xs ∧ xs.Nodup := by simpa using hnd
+    simp only [List.foldl_cons]
+    -- the first step as a map
+    have h1 : (unreadyStep cc s x).heap = s.heap.map (fun g => if g.name = x then unreadyIf cc g else g) ∧
+        ((unreadyStep cc s x).changed = false → s.changed = false ∧ (x != cc && Inherits (s.heap.getD x) cc) = false) := by
+      unfold unreadyStep
+      by_cases hc : (x != cc && Inherits (s.heap.getD x) cc) = true
+      · simp only [hc, if_true]
+        refine ⟨?_, fun h => by simp at h⟩
+        rw [put_eq_map (c := x) _ hn (by rw [unready_eq]; exact getD_name _ _)]
+        apply List.map_congr_left
+        intro g hg
+        by_cases hgx : g.name = x
+        · have hget : s.heap.getD x = g := by rw [← hgx]; exact getD_of_mem hn hg
+          simp only [hgx, if_true]
+          unfold unreadyIf
+          rw [← hget] at hgx ⊢
+          simp [getD_name, hc]
+        · simp [hgx]
+      · simp only [hc, Bool.false_eq_true, if_false]
+        refine ⟨?_, fun h => ⟨h, by simpa using hc⟩⟩
+        conv => lhs; rw [← List.map_id s.heap]
+        apply List.map_congr_left
+        intro g hg
+        by_cases hgx : g.name = x
+        · have hget : s.heap.getD x = g := by rw [← hgx]; exact getD_of_mem hn hg
+          simp only [hgx, if_true, id]
+          unfold unreadyIf
+          rw [← hget] at hgx ⊢
+          simp only [getD_name] at hc ⊢
+          simp [hc]
+        · simp [hgx]
+    obtain ⟨h1a, h1b⟩ := h1
+    have hn1 : NodupNames (unreadyStep cc s x).heap := by
+      unfold NodupNames Heap.allClasses at hn ⊢
+      rw [h1a, List.map_map]
+      have : ((fun x => x.name) ∘ fun g => if g.name = x then unreadyIf cc g else g) = fun g : GClass => g.name := by
+        funext g
+        by_cases hgx : g.name = x <;> simp [hgx, unreadyIf_name]
+      rw [this]; exact hn
+    obtain ⟨i1, i2⟩ := unready_fold cc xs (unreadyStep cc s x) hx.2 hn1
+    refine ⟨?_, ?_⟩
+    · rw [i1, h1a, List.map_map]
+      apply List.map_congr_left
+      intro g _
+      by_cases hgx : g.name = x
+      · have : g.name ∉ xs := by rw [hgx]; exact hx.1
+        simp [hgx, unreadyIf_name, hx.1]
+      · simp [hgx]
+    · intro hch
+      obtain ⟨j1, j2⟩ := i2 hch
+      obtain ⟨k1, k2⟩ := h1b j1
+      refine ⟨k1, ?_⟩
+      intro c hc
+      rcases List.mem_cons.1 hc with e | e
+      · rw [e]; exact k2
+      · have hcx : c ≠ x := fun e' => hx.1 (e' ▸ e)
+        have := j2 c e
+        rw [h1a, getD_map_of_ne (unreadyIf_name cc) _ _ hcx] at this
+        exact this
